@@ -8,7 +8,7 @@ package tss
 // group queued for processing is handled (its record is the only group record that stage may change); expired groups are swept; every pending signing is handled and that queue is emptied too. Store invariants
 // (kept by every writer in the module): a stored group / signing is filed under its own id, the counters are ordered.
 //@ func EndBlocker
-//@ may_panic
+//@ may_panic calls
 //@ modifies Store_tss, Other, Bank
 //@ requires keeper.wfGroups(Store_tss) && keeper.wfPending(Store_tss) && keeper.wfSignings(Store_tss)
 //@ requires forall g Int :: has(Store_tss, types.GroupStoreKey(g)) ==> keeper.groupAt(Store_tss, g).ID == g
